@@ -62,7 +62,9 @@ func buildPool(h *harness.Host, g *core.Tape) ([]poolKey, string) {
 	}
 	for _, s := range []string{"", "a", "ab", "abcdefg", "abcdefgh", "abcdefghi", strings.Repeat("long", 10), "1", "1.0",
 		// same length, differing only in the last or the first byte, around the short-string sizes
-		"abcdef1", "abcdef2", "abcdefg1", "abcdefg2", "1bcdefgh", "abcdefgh1", "abcdefgh2", "0123456789abcde1", "0123456789abcde2", "a\x00b", "a\x00c", "\xff"} {
+		"abcdef1", "abcdef2", "abcdefg1", "abcdefg2", "1bcdefgh", "abcdefgh1", "abcdefgh2", "0123456789abcde1", "0123456789abcde2", "a\x00b", "a\x00c", "\xff",
+		// a string and the same string followed by NUL bytes; the empty string and NULs only
+		"a\x00", "a\x00\x00", "\x00", "\x00\x00", "abcdefg\x00"} {
 		add(rt.StringValue(s), "s"+s, fmt.Sprintf("%q", s))
 		// an equal string built separately at run time
 		b := []byte(s)
